@@ -1,2 +1,443 @@
-//! Shared harness vocabulary (assets, sources, contract map). Overlay only.
-#![allow(dead_code, unused_imports)]
+//! Shared harness vocabulary (assets, sources, contract map, model view). Overlay only.
+#![allow(dead_code, unused_imports, unused_variables)]
+use crate::amv::nd;
+use crate::{
+    anycache::{AssetMap as AssetMapT, Cache, CacheExt, RawCache},
+    asset::NotHotReloaded,
+    entry::{CacheEntry, UntypedHandle},
+    loader,
+    source::{DirEntry, FileContent, Source},
+    AnyCache, Asset, BoxedError, Compound, SharedString, Storable,
+};
+use std::{
+    any::TypeId,
+    borrow::Cow,
+    cell::{Cell, UnsafeCell},
+    io,
+};
+
+// ---------------------------------------------------------------------------------------------
+// error type returned by harness loaders (no formatting anywhere)
+// ---------------------------------------------------------------------------------------------
+#[derive(Debug)]
+pub struct BadErr;
+impl std::fmt::Display for BadErr {
+    fn fmt(&self, _f: &mut std::fmt::Formatter<'_>) -> std::fmt::Result {
+        Ok(())
+    }
+}
+impl std::error::Error for BadErr {}
+
+// ---------------------------------------------------------------------------------------------
+// asset types: A, B reloadable (same ids, same extension "x"), S opted out of hot-reloading
+// ---------------------------------------------------------------------------------------------
+pub trait Mk: Sized {
+    fn mk(b: u8) -> Self;
+    fn val(&self) -> u8;
+}
+pub struct L1;
+impl<T: Mk> loader::Loader<T> for L1 {
+    fn load(content: Cow<[u8]>, _ext: &str) -> Result<T, BoxedError> {
+        if content.len() == 1 {
+            Ok(T::mk(content[0]))
+        } else {
+            Err(Box::new(BadErr))
+        }
+    }
+}
+macro_rules! mk_asset {
+    ($n:ident, $hot:expr) => {
+        pub struct $n(pub u8);
+        impl Mk for $n {
+            fn mk(b: u8) -> Self {
+                $n(b)
+            }
+            fn val(&self) -> u8 {
+                self.0
+            }
+        }
+        impl Asset for $n {
+            const EXTENSION: &'static str = "x";
+            type Loader = L1;
+            const HOT_RELOADED: bool = $hot;
+        }
+    };
+}
+mk_asset!(A, true);
+mk_asset!(B, true);
+mk_asset!(S, false);
+impl NotHotReloaded for S {}
+
+/// A plain Storable (never loadable) value type.
+pub struct P(pub u8);
+impl Storable for P {}
+impl NotHotReloaded for P {}
+impl Mk for P {
+    fn mk(b: u8) -> Self {
+        P(b)
+    }
+    fn val(&self) -> u8 {
+        self.0
+    }
+}
+
+/// Compound over A with the same id: value = A's value (wrapping) + 1.
+pub struct Y(pub u8);
+impl Mk for Y {
+    fn mk(b: u8) -> Self {
+        Y(b)
+    }
+    fn val(&self) -> u8 {
+        self.0
+    }
+}
+impl Compound for Y {
+    fn load(cache: AnyCache, id: &SharedString) -> Result<Self, BoxedError> {
+        match cache.load::<A>(id) {
+            Ok(h) => Ok(Y(h.read().0.wrapping_add(1))),
+            Err(e) => Err(Box::new(e)),
+        }
+    }
+}
+
+// ---------------------------------------------------------------------------------------------
+// in-memory source over ids {"a","b"} and extension "x" with a per-id outcome that can be flipped
+// ---------------------------------------------------------------------------------------------
+#[derive(Clone, Copy, PartialEq, Eq)]
+pub enum O {
+    NotFound,
+    Denied,
+    Bad,
+    Good,
+}
+pub fn any_o() -> O {
+    match nd::<u8>() & 3 {
+        0 => O::NotFound,
+        1 => O::Denied,
+        2 => O::Bad,
+        _ => O::Good,
+    }
+}
+pub struct Mem {
+    pub o: [Cell<O>; 2],
+    pub data: [[u8; 1]; 2],
+    pub reads: Cell<u8>,
+    pub dir_reads: Cell<u8>,
+}
+impl Mem {
+    pub fn new(oa: O, ob: O, da: u8, db: u8) -> Self {
+        Mem { o: [Cell::new(oa), Cell::new(ob)], data: [[da], [db]], reads: Cell::new(0), dir_reads: Cell::new(0) }
+    }
+    pub fn any() -> Self {
+        Mem::new(any_o(), any_o(), nd(), nd())
+    }
+    pub fn idx(id: &str) -> Option<usize> {
+        if id == "a" {
+            Some(0)
+        } else if id == "b" {
+            Some(1)
+        } else {
+            None
+        }
+    }
+}
+impl Source for Mem {
+    fn read(&self, id: &str, ext: &str) -> io::Result<FileContent> {
+        self.reads.set(self.reads.get().wrapping_add(1));
+        let i = match Mem::idx(id) {
+            Some(i) if ext == "x" => i,
+            _ => return Err(io::Error::from(io::ErrorKind::NotFound)),
+        };
+        match self.o[i].get() {
+            O::NotFound => Err(io::Error::from(io::ErrorKind::NotFound)),
+            O::Denied => Err(io::Error::from(io::ErrorKind::PermissionDenied)),
+            O::Bad => Ok(FileContent::Slice(b"")),
+            O::Good => Ok(FileContent::Slice(&self.data[i])),
+        }
+    }
+    fn read_dir(&self, _id: &str, _f: &mut dyn FnMut(DirEntry)) -> io::Result<()> {
+        self.dir_reads.set(self.dir_reads.get().wrapping_add(1));
+        Err(io::Error::from(io::ErrorKind::NotFound))
+    }
+    fn exists(&self, _e: DirEntry) -> bool {
+        false
+    }
+}
+
+// ---------------------------------------------------------------------------------------------
+// the contract map: AssetMap whose *implementation is its contract* (finite map keyed by (type,id),
+// first writer wins, boxed entries keep their address). Directly indexed by the key alphabet
+// {a,b} x {A,B,S,Y} so that a look-up never dereferences another entry (keeps CBMC's formula small).
+// Used for obligations about the generic front-end; the real maps are checked against this same
+// contract in C01/C02 (steps on the real map).
+// ---------------------------------------------------------------------------------------------
+pub const NT: usize = 4;
+pub const NK: usize = 2 * NT;
+pub const IDS: [&str; 2] = ["a", "b"];
+pub const fn kidx(id_i: usize, ty_i: usize) -> usize {
+    ty_i * 2 + id_i
+}
+pub fn tid(ty_i: usize) -> TypeId {
+    match ty_i {
+        0 => TypeId::of::<A>(),
+        1 => TypeId::of::<B>(),
+        2 => TypeId::of::<S>(),
+        _ => TypeId::of::<Y>(),
+    }
+}
+/// TypeId equality by comparing the two pointer-typed words AS POINTERS. `TypeId::eq` transmutes them to u128;
+/// CBMC's pointer-to-integer encoding makes every *inequality* of two TypeIds cost a case split over all live
+/// objects (measured: 45 s with 9 objects). Only harness-side code uses this; the code under test keeps `==`.
+pub fn tid_eq(a: TypeId, b: TypeId) -> bool {
+    let x: [*const (); 2] = unsafe { std::mem::transmute(a) };
+    let y: [*const (); 2] = unsafe { std::mem::transmute(b) };
+    x[0] == y[0] && x[1] == y[1]
+}
+pub fn key_index(id: &str, t: TypeId) -> usize {
+    let id_i = match Mem::idx(id) {
+        Some(i) => i,
+        None => panic!("contract map: id outside the harness alphabet"),
+    };
+    let ty_i = if tid_eq(t, TypeId::of::<A>()) {
+        0
+    } else if tid_eq(t, TypeId::of::<B>()) {
+        1
+    } else if tid_eq(t, TypeId::of::<S>()) {
+        2
+    } else if tid_eq(t, TypeId::of::<Y>()) {
+        3
+    } else {
+        panic!("contract map: type outside the harness alphabet")
+    };
+    kidx(id_i, ty_i)
+}
+pub struct GhostMap {
+    /// storage; a slot may hold a pre-allocated entry that is *not* in the map (see `present`)
+    pub slots: UnsafeCell<[Option<CacheEntry>; NK]>,
+    /// which keys are in the map. Symbolic pre-states only make these booleans symbolic, never a pointer.
+    pub present: [Cell<bool>; NK],
+    pub inserts: Cell<u8>,
+    pub gets: Cell<u8>,
+}
+impl GhostMap {
+    pub fn new() -> Self {
+        GhostMap {
+            slots: UnsafeCell::new([None, None, None, None, None, None, None, None]),
+            present: [Cell::new(false), Cell::new(false), Cell::new(false), Cell::new(false), Cell::new(false), Cell::new(false), Cell::new(false), Cell::new(false)],
+            inserts: Cell::new(0),
+            gets: Cell::new(0),
+        }
+    }
+    pub fn slot(&self, k: usize) -> Option<&CacheEntry> {
+        if self.present[k].get() {
+            unsafe { (*self.slots.get())[k].as_ref() }
+        } else {
+            None
+        }
+    }
+    /// harness-side pre-state construction (not an AssetMap operation): the entry is allocated
+    /// unconditionally, its membership is the (possibly symbolic) flag.
+    pub fn put(&self, k: usize, e: CacheEntry, present: bool) {
+        let s = unsafe { &mut *self.slots.get() };
+        std::mem::forget(std::mem::replace(&mut s[k], Some(e)));
+        self.present[k].set(present);
+    }
+    /// harness-side removal (models remove/clear of the real maps for history harnesses)
+    pub fn unput(&self, k: usize) {
+        self.present[k].set(false);
+    }
+}
+impl AssetMapT for GhostMap {
+    fn get(&self, id: &str, t: TypeId) -> Option<&UntypedHandle> {
+        self.gets.set(self.gets.get().wrapping_add(1));
+        match self.slot(key_index(id, t)) {
+            Some(e) => Some(unsafe { e.inner().extend_lifetime() }),
+            None => None,
+        }
+    }
+    fn insert(&self, entry: CacheEntry) -> &UntypedHandle {
+        self.inserts.set(self.inserts.get().wrapping_add(1));
+        let k = key_index(entry.id(), entry.type_id());
+        if !self.present[k].get() {
+            let s = unsafe { &mut *self.slots.get() };
+            // a pre-allocated phantom that was never in the map is forgotten, not dropped
+            std::mem::forget(std::mem::replace(&mut s[k], Some(entry)));
+            self.present[k].set(true);
+        } else {
+            drop(entry);
+        }
+        match self.slot(k) {
+            Some(e) => unsafe { e.inner().extend_lifetime() },
+            None => unreachable!(),
+        }
+    }
+    fn contains_key(&self, id: &str, t: TypeId) -> bool {
+        self.present[key_index(id, t)].get()
+    }
+}
+
+/// Generic front-end under test = the real `RawCache -> Cache -> CacheExt` code over the contract map.
+pub struct GC {
+    pub map: GhostMap,
+    pub src: Mem,
+    #[cfg(feature = "hot-reloading")]
+    pub rel: Option<crate::hot_reloading::HotReloader>,
+}
+impl RawCache for GC {
+    type AssetMap = GhostMap;
+    type Source = Mem;
+    fn assets(&self) -> &GhostMap {
+        &self.map
+    }
+    fn get_source(&self) -> &Mem {
+        &self.src
+    }
+    #[cfg(feature = "hot-reloading")]
+    fn reloader(&self) -> Option<&crate::hot_reloading::HotReloader> {
+        self.rel.as_ref()
+    }
+}
+impl GC {
+    pub fn new(src: Mem) -> Self {
+        GC {
+            map: GhostMap::new(),
+            src,
+            #[cfg(feature = "hot-reloading")]
+            rel: None,
+        }
+    }
+}
+
+// ---------------------------------------------------------------------------------------------
+// model view over the key alphabet
+// ---------------------------------------------------------------------------------------------
+#[derive(Clone, Copy, PartialEq, Eq)]
+pub struct Slot {
+    pub present: bool,
+    pub val: u8,
+    /// address of the entry, kept as a pointer (pointer-to-integer casts are expensive in CBMC)
+    pub addr: *const (),
+}
+pub type View = [Slot; NK];
+pub fn val_of(h: &UntypedHandle, ty_i: usize) -> u8 {
+    match ty_i {
+        0 => match h.downcast_ref::<A>() {
+            Some(h) => h.read().0,
+            None => panic!("view: entry stored under A's key is not an A"),
+        },
+        1 => match h.downcast_ref::<B>() {
+            Some(h) => h.read().0,
+            None => panic!("view: entry stored under B's key is not a B"),
+        },
+        2 => match h.downcast_ref::<S>() {
+            Some(h) => h.read().0,
+            None => panic!("view: entry stored under S's key is not an S"),
+        },
+        _ => match h.downcast_ref::<Y>() {
+            Some(h) => h.read().0,
+            None => panic!("view: entry stored under Y's key is not a Y"),
+        },
+    }
+}
+pub fn slot_view(h: Option<&UntypedHandle>, ty_i: usize) -> Slot {
+    match h {
+        Some(h) => Slot { present: true, val: val_of(h, ty_i), addr: h as *const UntypedHandle as *const () },
+        None => Slot { present: false, val: 0, addr: std::ptr::null() },
+    }
+}
+/// Whole view of the contract map, read from its slots.
+pub fn gview(m: &GhostMap) -> View {
+    let mut v = [Slot { present: false, val: 0, addr: std::ptr::null() }; NK];
+    let mut k = 0;
+    while k < NK {
+        v[k] = slot_view(m.slot(k).map(|e| e.inner()), k / 2);
+        k += 1;
+    }
+    v
+}
+/// Whole observable view of any map, through the AssetMap trait only (used for the real maps).
+pub fn view_of<M: AssetMapT>(m: &M) -> View {
+    let mut v = [Slot { present: false, val: 0, addr: std::ptr::null() }; NK];
+    let mut k = 0;
+    while k < NK {
+        let (id, ty) = (IDS[k % 2], k / 2);
+        v[k] = slot_view(m.get(id, tid(ty)), ty);
+        assert!(m.contains_key(id, tid(ty)) == v[k].present, "view: contains_key disagrees with get");
+        k += 1;
+    }
+    v
+}
+/// Pre-state of the contract map over a CONCRETE shape (which keys are present: bit0 (a,A), bit1 (a,B),
+/// bit2 (b,A), bit3 (a,S)) with SYMBOLIC values. The shape is enumerated by generated harness instances
+/// (symbolic presence bits make CBMC merge hit and miss paths: 45-200 s instead of 3-5 s per instance).
+pub fn gfill(m: &GhostMap, mask: u8, dynamic: bool) {
+    if mask & 1 != 0 {
+        m.put(kidx(0, 0), CacheEntry::new(A(nd()), "a".into(), || dynamic), true);
+    }
+    if mask & 2 != 0 {
+        m.put(kidx(0, 1), CacheEntry::new(B(nd()), "a".into(), || dynamic), true);
+    }
+    if mask & 4 != 0 {
+        m.put(kidx(1, 0), CacheEntry::new(A(nd()), "b".into(), || dynamic), true);
+    }
+    if mask & 8 != 0 {
+        m.put(kidx(0, 2), CacheEntry::new(S(nd()), "a".into(), || dynamic), true);
+    }
+}
+pub fn any_err_o() -> O {
+    match nd::<u8>() % 3 {
+        0 => O::NotFound,
+        1 => O::Denied,
+        _ => O::Bad,
+    }
+}
+/// every key except `k` is exactly as before (presence, value, address)
+pub fn frame_except(pre: &View, post: &View, k: usize) {
+    let mut i = 0;
+    while i < NK {
+        if i != k {
+            assert!(pre[i] == post[i], "frame: an entry other than the one named by the operation changed");
+        }
+        i += 1;
+    }
+}
+pub fn frame_all(pre: &View, post: &View) {
+    frame_except(pre, post, NK);
+}
+
+// ---------------------------------------------------------------------------------------------
+// callee contract stub for ErrorKind::or (its contract is proved on the real text by C03.V1):
+// result is one of the two arguments and has the maximal class; the loser is forgotten instead of dropped
+// (dropping a Box<dyn Error> makes CBMC fan out over every Error impl in std).
+// ---------------------------------------------------------------------------------------------
+use crate::error::ErrorKind;
+pub static mut LAST_CLASS: u8 = 0;
+pub fn class(k: &ErrorKind) -> u8 {
+    match k {
+        ErrorKind::NoDefaultValue => 0,
+        ErrorKind::Io(e) => {
+            if e.kind() == io::ErrorKind::NotFound {
+                1
+            } else {
+                2
+            }
+        }
+        ErrorKind::Conversion(_) => 3,
+    }
+}
+pub fn or_contract(this: ErrorKind, other: ErrorKind) -> ErrorKind {
+    let (a, b) = (class(&this), class(&other));
+    if a >= b && !(a == 1 && b == 1) {
+        unsafe {
+            LAST_CLASS = a;
+        }
+        std::mem::forget(other);
+        this
+    } else {
+        unsafe {
+            LAST_CLASS = b;
+        }
+        std::mem::forget(this);
+        other
+    }
+}
